@@ -197,6 +197,25 @@ def replay_history(case):
                 fails.append("upgraded manifest cannot be written and re-read: %s: %s (hist=%s)" % (type(exc).__name__, exc, _short(case["hist"])))
     if case.get("focus") in ("C10", "C05") and got:
         try:
+            if case.get("focus") == "C10":
+                # the dict spelling: deserialize(parsed) twice, serialize({}) and serialize(over the previous document)
+                from . import core
+                from productmd.images import Images as _I2
+                try:
+                    _I2().loads(m.dumps())
+                    readable = True
+                except ValueError:
+                    readable = False       # a pre-1.1 document with look-alike images, upgraded: F-05b territory (C05 reports it)
+                if readable:
+                    fails += ["%s (hist=%s)" % (f, _short(case["hist"])) for f in core.dict_cycle(m, m.dumps(), "manifest")]
+                # ... and serialize() over the OLD document the caller parsed (converting a file in place): no source arch
+                # key survives, nothing is listed twice
+                for ev in case["hist"][-1:]:
+                    if ev["op"] == "load" and ev.get("out") == "ok":
+                        old = json.loads(doc_text(norm_cells(ev["doc"]), ev["ver"], k, s))
+                        m.serialize(old)
+                        if core.canonical_json(old) != m.dumps():
+                            fails.append("serialize() over the parsed old document differs from dumps() (hist=%s)" % _short(case["hist"]))
             doc = json.loads(m.dumps())
             for v in doc["payload"]["images"]:
                 for a in doc["payload"]["images"][v]:
